@@ -292,6 +292,15 @@ pub fn run(case: &Value) -> Res {
         let va = ta.view((0, 0), (a.0, a.1));
         let vb = tb.view((0, 0), (b.0, b.1));
         check_eq("view a == view b", &model_eq, &(va == vb))?;
+        // clone() and clone_from() yield an equal, independent array whatever the target held before
+        let ca = ta.clone();
+        check_eq("a.clone() == a", &true, &(ca == ta))?;
+        check_eq("a.clone() dims", &(a.0, a.1), &(ca.num_cols(), ca.num_rows()))?;
+        let mut tc = tb.clone();
+        tc.clone_from(&ta);
+        check_eq("b.clone_from(a) dims", &(a.0, a.1), &(tc.num_cols(), tc.num_rows()))?;
+        check_eq("b.clone_from(a) cells", &a.2, &tc.data().to_vec())?;
+        check_eq("b.clone_from(a) == a", &true, &(tc == ta))?;
         return Ok(());
     }
     match js(&case["elem"]) {
